@@ -605,6 +605,10 @@ qb_ipcs_connection_unref(struct qb_ipcs_connection *c)
 	if (free_it) {
 		qb_list_del(&c->list);
 		if (c->service->serv_fns.connection_destroyed) {
+			/* hold a reference while the callback runs: taking and
+			 * dropping references in there must not start a
+			 * second destruction */
+			qb_atomic_int_set(&c->refcount, 1);
 			c->service->serv_fns.connection_destroyed(c);
 		}
 		c->service->funcs.disconnect(c);
